@@ -326,6 +326,18 @@ class Engine:
         self.violations.append(Violation(clause, self.model_inputs(m), detail))
         return True
 
+    def feasible(self, cond):
+        """Is cond satisfiable together with the path condition?  (no violation is recorded)"""
+        c = P.term_bool(cond)
+        if c is False:
+            return False
+        if c is True:
+            return True
+        r = self._check(c)
+        if r == z3.unknown:
+            self.n_inconclusive += 1
+        return r != z3.unsat
+
     def model_inputs(self, m=None):
         m = m or self.get_model()
         out = {}
@@ -448,6 +460,12 @@ class ConcreteEnv:
 
     def observe(self, obj):
         self.observed = obj
+
+    def feasible(self, cond):
+        c = P.term_bool(cond)
+        if c not in (True, False):
+            c = z3.is_true(z3.simplify(c))
+        return bool(c)
 
 
 def run_concrete(fn, params, values, alphabet=()):
